@@ -556,7 +556,10 @@ pub fn conclude(cfg: &RunCfg, rep: CheckReport) -> i32 {
     if let Some((pi, v)) = first_violation {
         let dir = format!("{}/replays/{}", cfg.verif_dir, cfg.prop);
         let _ = std::fs::create_dir_all(&dir);
-        let path = format!("{}/{}-{}.json", dir, cfg.tier.name(), rep.parts[pi].name);
+        // (a build variant, e.g. ".nounicode", is part of the file name: run.sh picks the
+        // matching binary for the replay)
+        let variant = std::env::var("VERIF_BUILD_VARIANT").unwrap_or_default();
+        let path = format!("{}/{}-{}{}.json", dir, cfg.tier.name(), rep.parts[pi].name, variant);
         let body = json!({
             "property_id": cfg.prop,
             "tier": cfg.tier.name(),
